@@ -232,8 +232,12 @@ for case in range(N):
         except Exception as ex:
             fail_struct.append({'witness': wit, 'what': 'write_EA: %s: %s' % (type(ex).__name__, str(ex)[:100]), 'key': 'ea-exception'})
     Tl, Pl, Ql, al = [list(rng.uniform(lo, hi, n_runs)) for lo, hi in ((300, 1500), (0.1, 20), (1, 100), (10, 500))]
-    tf = body(ck.write_T_flow(T=Tl, P=Pl, Q=Ql, abyv=al))
     n_num += 1
+    try:
+        tf = body(ck.write_T_flow(T=Tl, P=Pl, Q=Ql, abyv=al))
+    except Exception as ex:
+        fail_struct.append({'witness': wit, 'what': 'write_T_flow: %s: %s' % (type(ex).__name__, str(ex)[:100]), 'key': 'tflow-exception'})
+        tf = ['EOF'] * (n_runs + 1)
     if len(tf) != n_runs + 1 or tf[-1] != 'EOF':
         fail_struct.append({'witness': wit, 'what': 'T_flow has %d rows for %d runs' % (len(tf) - 1, n_runs), 'key': 'tflow-count'})
     for i, row in enumerate(tf[:-1]):
@@ -246,7 +250,12 @@ for case in range(N):
         listed = [s for s in species if any(s.name in m for m in mf)]
         if listed:
             n_num += 1
-            tm = body(ck.write_tube_mole(mole_frac_conditions=mf, nasa_species=species))
+            try:
+                tm = body(ck.write_tube_mole(mole_frac_conditions=mf, nasa_species=species))
+            except Exception as ex:
+                fail_struct.append({'witness': wit, 'what': 'write_tube_mole: %s: %s' % (type(ex).__name__, str(ex)[:100]),
+                                    'key': 'tube-exception'})
+                continue
             if int(tm[1].split()[0]) != len(listed) or len(tm) != len(listed) + 3:
                 fail_struct.append({'witness': wit, 'what': 'tube_mole declares %s species, has %d rows, %d named' % (tm[1].split()[0], len(tm) - 3, len(listed)),
                                     'key': 'tube-count'})
